@@ -68,8 +68,11 @@ func failKeys(out string) map[string]bool {
 	m := map[string]bool{}
 	for _, l := range strings.Split(out, "\n") {
 		if strings.HasPrefix(l, "FAIL ") {
-			f := strings.Fields(l)
-			if len(f) >= 3 {
+			// "FAIL <rule> <key> @ <pos>: <detail>": the key may contain spaces
+			rest := strings.TrimPrefix(l, "FAIL ")
+			if i := strings.Index(rest, " @ "); i > 0 {
+				m[rest[:i]] = true
+			} else if f := strings.Fields(l); len(f) >= 3 {
 				m[f[1]+" "+f[2]] = true
 			}
 		}
